@@ -12,6 +12,25 @@ from . import models
 DEFAULT_OPAQUE_STR = {'_format', '_ascii2'}
 
 
+class VExt(Value):
+    """A callable outside the repository that is used through an assumed contract."""
+    def __init__(self, contract, self_val=None):
+        self.contract = contract
+        self.self_val = self_val
+
+
+def ext_funcinfo(ex, contract):
+    fi = getattr(contract, '_fi', None)
+    if fi is None:
+        name = contract.key.split('::')[-1].split('.')[-1]
+        node = ast.parse(f"def {name}({', '.join(contract.sig)}):\n    pass").body[0]
+        mod = ex.repo.module('pywbem._utils')
+        fi = FuncInfo(mod, node, None)
+        fi._ext_key = contract.key
+        contract._fi = fi
+    return fi
+
+
 class VSuper(Value):
     def __init__(self, obj, cls):
         self.obj = obj
@@ -135,6 +154,11 @@ class CallMixin:
             return models.call_builtin(self, fn, args, kwargs, node)
         if isinstance(fn, VClass):
             return self.instantiate(fn, args, kwargs, node)
+        if isinstance(fn, VExt):
+            a = list(args)
+            if fn.self_val is not None:
+                a = [fn.self_val] + a
+            return self.apply_contract(fn.contract, ext_funcinfo(self, fn.contract), a, kwargs, node)
         if isinstance(fn, VSuper):
             self.limit('calling super object', node)
         if isinstance(fn, VNone):
@@ -275,6 +299,18 @@ class CallMixin:
             else:
                 k = 0
             for loc in c.modifies:
+                locnode = self.parse_spec(loc)
+                if isinstance(locnode, ast.Attribute):
+                    base = self.res(self.eval_spec(locnode.value))
+                    if isinstance(base, VPtr) and isinstance(self.cell(base), ObjCell):
+                        bc = self.cell(base)
+                        cur = bc.fields.get(locnode.attr)
+                        if cur is not None and not isinstance(cur, VPtr):
+                            nf = dict(bc.fields)
+                            nf[locnode.attr] = self.fresh_like(cur, locnode.attr, node)
+                            self.setcell(base, ObjCell(bc.cls, nf, bc.spec))
+                            self.st.havoc_used = True
+                            continue
                 p = self.res(self.eval_spec(loc))
                 if isinstance(p, VPtr):
                     self.havoc_cell(p, node)
